@@ -292,3 +292,54 @@ def reads_leave_no_trace(model, payload):
                     shutil.rmtree(d, ignore_errors=True)
     return {"reproduced": False, "detail": "read operations and stage-restricted evaluations leave all 16 leftover states x {bare, cache-wrapped} byte-identical on disk and answer from the committed state"}
 
+
+def restricted_then_full(model, payload):
+    """A stage-restricted run changes nothing that a later full evaluation returns or commits: for kept values whose stored
+    form is delicate (text with CR LF / lone CR / NUL, empty text, bytes, None, a nested object) and every stage prefix,
+    `dds.eval(..., dds_stages=prefix)` followed by a full evaluation gives exactly what a full evaluation alone gives (value
+    and type), on the local store, the cache-wrapped local store and the memory store; so does a second full evaluation."""
+    import importlib
+    import shutil
+    import sys
+    import tempfile
+    import dds
+
+    d = tempfile.mkdtemp(prefix="dds_h_store_rtf_")
+    sys.path.insert(0, d)
+    n = 0
+    try:
+        # (the values live outside the module: a module-level list holding bytes would itself be a tracked variable)
+        sys._dds_rtf_values = ["id,name\r\n1,ada\r\n", "x\ry", "nul\x00end", "", b"\r\n\x00", None, {"k": ["a\r\n", 1]}]
+        open(os.path.join(d, "rtf_mod.py"), "w").write("import sys\nimport dds\nWHICH = 0\ndef leaf():\n    return sys._dds_rtf_values[WHICH]\ndef top():\n    return dds.keep('/rtf/leaf', leaf)\n")
+        m = importlib.import_module("rtf_mod")
+        dds.accept_module(m)
+        prefixes = [["analysis"], ["analysis", "store_inspect"], ["analysis", "store_inspect", "eval"], ["analysis", "store_inspect", "eval", "store_commit"]]
+        for kind in ("local", "local+cache", "memory"):
+            for which in range(7):
+                for prefix in prefixes + [None]:
+                    n += 1
+                    m.WHICH = which
+                    sd = os.path.join(d, "st_%d" % n)
+                    if kind == "memory":
+                        dds.set_store("memory")
+                    else:
+                        dds.set_store("local", internal_dir=os.path.join(sd, "i"), data_dir=os.path.join(sd, "d"), cache_objects=2 if kind == "local+cache" else None)
+                    want = m.leaf()
+                    try:
+                        if prefix is not None:
+                            dds.eval(m.top, dds_stages=prefix)
+                        got = [dds.eval(m.top), dds.eval(m.top), dds.load("/rtf/leaf")]
+                    except BaseException as e:
+                        got = ["<%s: %s>" % (type(e).__name__, str(e)[:80])]
+                    bad = [g for g in got if g != want or type(g) is not type(want)]
+                    if bad:
+                        return {"reproduced": True, "detail": "[%s store] kept value %r: %s a full evaluation / a second one / dds.load give %r, plain execution gives %r" % (kind, want, ("after dds.eval(top, dds_stages=%s)" % prefix) if prefix else "without any restricted run", got, want),
+                                "inputs": {"store": kind, "value": repr(want), "stages": prefix}}
+                    shutil.rmtree(sd, ignore_errors=True)
+        return {"reproduced": False, "detail": "%d (store, value, stage prefix) cases: the full evaluation returns the value of plain execution" % n}
+    finally:
+        dds.set_store("memory")
+        sys.path.remove(d)
+        sys.modules.pop("rtf_mod", None)
+        shutil.rmtree(d, ignore_errors=True)
+
